@@ -332,6 +332,11 @@ impl Store {
                 return Ok(())
             }
         };
+        if matches!(header.update_status, UpdateStatus::LastAttempt(_)) {
+            // The point was never updated successfully: the file ends
+            // after the header, there is nothing to dump.
+            return Ok(())
+        }
         let manifest = StoredManifest::read(&mut file).map_err(|err| {
             error!(
                 "Fatal: failed to read file {}: {}",
